@@ -55,6 +55,49 @@ class Timeout(BaseException):
     pass
 
 
+HISTORY = {'parsed': 0}
+
+
+def history():
+    """what this process parsed before: a verdict must not depend on it, a replay re-creates it"""
+    return {'urls_parsed_before': HISTORY['parsed']}
+
+
+def warm_url(k):
+    return 'http://w%d.h%d.example:%d/p%d/x?q=%d#f%d' % (k, k % 7, 1000 + k % 50000, k, k, k)
+
+
+def warm_expected(k):
+    return 'http://w%d.h%d.example:%d/p%d/x?q=%d' % (k, k % 7, 1000 + k % 50000, k, k)
+
+
+def from_real_code(exc, repo):
+    """did the exception come out of the code under test (innermost frame inside the wpull tree)?"""
+    import traceback
+    tb = traceback.extract_tb(exc.__traceback__)
+    return bool(tb) and os.path.realpath(tb[-1].filename).startswith(os.path.realpath(repo) + os.sep)
+
+
+def run_stream(ctx, name, fn):
+    """run one stream; an exception that the real code raised outside a guarded comparison is a reported
+    failure (with the process history), not a crash of the engine"""
+    try:
+        return fn()
+    except (Infra, Timeout):
+        raise
+    except Exception as e:
+        if not from_real_code(e, ctx.repo):
+            raise
+        import traceback
+        tb = traceback.extract_tb(e.__traceback__)
+        ctx.fail('non-valueerror-exception', 'stream:' + name,
+                 {'stream': 'longrun', 'url': warm_url(HISTORY['parsed'] + 1), 'history': history()},
+                 '%s: %s escaped the real code at %s:%d (%s) while stream %s ran, after %d URLs had been parsed in this process'
+                 % (type(e).__name__, str(e)[:200], os.path.relpath(tb[-1].filename, ctx.repo), tb[-1].lineno, tb[-1].name,
+                    name, HISTORY['parsed']))
+        return None
+
+
 _state = {}
 
 
@@ -346,9 +389,11 @@ def py_strip_prefix(url):
     return url.strip().partition(':')[0]
 
 
-def run_real(wu, case, op='parse', after=None):
+def run_real(wu, case, op='parse', after=None, keep_caches=False):
     """Run the real parse; fill case.real (canonical tokens), case.info, case.exc and the model request line."""
-    clear_caches(wu)
+    if not keep_caches:
+        clear_caches(wu)
+    HISTORY['parsed'] += 1
     Log.idna, Log.ipv6, Log.unq = [], [], []
     case.info, case.exc, case.errs, case.hyp = None, None, [], []
     try:
@@ -493,6 +538,75 @@ def correspond(ctx, wu, cases, op='parse', stream=None):
     return cases
 
 
+# ------------------------------------------------------------------ long-lived process
+def warm_process(ctx, wu, n, start=0):
+    """parse n distinct hosts / paths / queries in this process (no cache is cleared in between): every result must be
+    the expected normal form, whatever was parsed before"""
+    for k in range(start, start + n):
+        u = warm_url(k)
+        case = {'stream': 'longrun', 'url': u, 'history': {'urls_parsed_before': HISTORY['parsed']}}
+        HISTORY['parsed'] += 1
+        try:
+            with guard():
+                got = wu.URLInfo.parse(u).url
+        except Timeout:
+            ctx.fail('nontermination', 'URLInfo.parse', case, 'timeout')
+            continue
+        except ValueError as e:
+            ctx.fail('history-dependent', 'URLInfo.parse', case, 'a valid URL was rejected after %d URLs: %s' % (case['history']['urls_parsed_before'], e))
+            continue
+        except BaseException as e:
+            ctx.fail('non-valueerror-exception', 'URLInfo.parse', case,
+                     'parse raised %s: %s after %d distinct URLs had been parsed in this process'
+                     % (type(e).__name__, str(e)[:200], case['history']['urls_parsed_before']))
+            continue
+        if got != warm_expected(k):
+            ctx.fail('history-dependent', 'URLInfo.parse', case, '%r -> %r, expected %r' % (u, got, warm_expected(k)))
+    ctx.tag('longrun:warm', n)
+    ctx.evaluations += n
+
+
+def recheck_process(ctx, wu, rng, n_old, n_new):
+    """at the end of the run: earlier and new inputs, parsed WITHOUT clearing any cache, against the model"""
+    total = HISTORY['parsed']
+    cases = [Case(warm_url(rng.randrange(0, 3000)), kind='longrun-old') for _ in range(n_old)]
+    cases += [Case(warm_url(10 ** 6 + k), kind='longrun-new') for k in range(n_new)]
+    cases += [Case(Spec(rng).render(rng), kind='longrun-new') for _ in range(n_new)]
+    for c in cases:
+        run_real(wu, c, 'parse', keep_caches=True)
+    replies = ctx.model.ask([c.line for c in cases if not c.skip])
+    for c, rep in zip([c for c in cases if not c.skip], replies):
+        ctx.case(('longrun',) + c.key(), tags=['longrun:recheck'])
+        cj = dict(c.as_json(), history={'urls_parsed_before': total})
+        if c.exc is not None and not isinstance(c.exc, ValueError):
+            ctx.fail('non-valueerror-exception', 'URLInfo.parse', dict(cj, stream='longrun'),
+                     'parse raised %s: %s after %d URLs had been parsed in this process' % (type(c.exc).__name__, str(c.exc)[:200], total))
+        elif rep != c.real:
+            ctx.fail('history-dependent', 'URLInfo.parse', dict(cj, stream='longrun'),
+                     'after %d URLs the result differs from the history-free model: %s vs %s' % (total, c.real[:200], rep[:200]))
+
+
+def replay_longrun(ctx, wu, case):
+    n = int(case.get('history', {}).get('urls_parsed_before', 0))
+    ctx.note('replay_history', 'parsing %d distinct URLs first' % n)
+    for k in range(n):
+        try:
+            wu.URLInfo.parse(warm_url(5 * 10 ** 6 + k))      # a host family the failing input is not part of
+        except Exception:
+            pass
+    u = case['url']
+    try:
+        with guard():
+            wu.URLInfo.parse(u, default_scheme=case.get('default_scheme', 'http'), encoding=case.get('encoding', 'utf-8')).url
+    except Timeout:
+        ctx.fail('nontermination', 'URLInfo.parse', case, 'timeout')
+    except ValueError:
+        pass
+    except BaseException as e:
+        ctx.fail('non-valueerror-exception', 'URLInfo.parse', case,
+                 'parse raised %s: %s after %d distinct URLs had been parsed in this process' % (type(e).__name__, str(e)[:200], n))
+
+
 # ------------------------------------------------------------------ C11 oracle
 def oracle_total(ctx, case, op='parse'):
     """the property C11 on one real outcome"""
@@ -506,7 +620,7 @@ def oracle_total(ctx, case, op='parse'):
             ctx.fail('raises', 'parse_url_or_log', dict(case.as_json(), stream='orlog'),
                      'parse_url_or_log raised %s: %s' % (type(e).__name__, str(e)[:200]))
         elif not isinstance(e, ValueError):
-            ctx.fail('non-valueerror', 'URLInfo.parse', case.as_json(),
+            ctx.fail('non-valueerror', 'URLInfo.parse', dict(case.as_json(), history=history()),
                      'parse raised %s: %s' % (type(e).__name__, str(e)[:200]))
         return
     for name, err in case.errs:
@@ -1108,6 +1222,75 @@ def stream_strings(ctx, wu, n, rng):
         ctx.case((kind, arg), nontrivial=bool(arg), tags=['str:' + kind])
         if enc(real) != rep:
             ctx.disagree(kind, {'stream': kind, 'arg': arg}, rep, enc(real))
+
+
+SWEEP_CODECS = ['latin-1', 'cp1252', 'iso8859-15', 'cp1251', 'koi8-r', 'iso8859-2', 'cp1250', 'iso8859-5', 'iso8859-7', 'cp437', 'cp850',
+                'cp866', 'mac-roman', 'shift_jis', 'euc-jp', 'gbk', 'euc-kr', 'big5', 'utf-8']
+
+
+def byte_sweep_cases():
+    """the `encoding` argument as a dimension: per codec, for every byte value 0x80..0xFF a character whose encoding
+    holds that byte, placed in path, query, fragment and user info"""
+    out = []
+    for codec in SWEEP_CODECS:
+        chars = {}
+        for b in range(0x80, 0x100):
+            try:
+                ch = bytes([b]).decode(codec)
+                if len(ch) == 1 and ord(ch) >= 0x80:
+                    chars[b] = ch
+            except UnicodeError:
+                pass
+        if len(chars) < 100:
+            # multi-byte codec: cover the byte values through two-byte sequences
+            for lead in range(0x81, 0xFF):
+                for trail in list(range(0x40, 0x7F)) + list(range(0x80, 0x100)):
+                    if lead in chars and trail in chars:
+                        continue
+                    try:
+                        ch = bytes([lead, trail]).decode(codec)
+                    except UnicodeError:
+                        continue
+                    if len(ch) == 1:
+                        chars.setdefault(lead, ch)
+                        if trail >= 0x80:
+                            chars.setdefault(trail, ch)
+        for b, ch in sorted(chars.items()):
+            for tmpl in ('http://h/p%s/x', 'http://h/?q=%s', 'http://h/#%s', 'http://u%s:p%s@h/'):
+                out.append(Case(tmpl.replace('%s', ch), 'http', codec, 'byte-sweep'))
+    return out
+
+
+def stream_pct256(ctx, wu):
+    """percent_encode over every byte value for each of the five encode sets"""
+    sets = {'default': wu.DEFAULT_ENCODE_SET, 'password': wu.PASSWORD_ENCODE_SET, 'username': wu.USERNAME_ENCODE_SET,
+            'query': wu.QUERY_ENCODE_SET, 'fragment': wu.FRAGMENT_ENCODE_SET}
+    reqs, meta = [], []
+    for name in sets:
+        for b in range(256):
+            reqs.append('url pct %s %s' % (name, enc(bytes([b]))))
+            meta.append((name, b))
+    replies = ctx.model.ask(reqs)
+    for (name, b), rep in zip(meta, replies):
+        case = {'stream': 'pct', 'set': name, 'bytes': bytes([b])}
+        ctx.case(('pct256', name, b), tags=['str:pct256'])
+        try:
+            real = enc(wu.percent_encode(bytes([b]).decode('latin-1'), sets[name], 'latin-1'))
+        except Exception as e:
+            ctx.fail('non-valueerror', 'percent_encode', case, 'percent_encode raised %s: %r for byte 0x%02x' % (type(e).__name__, e, b))
+            continue
+        if real != rep:
+            ctx.disagree('pct', case, rep, real)
+    ctx.note('pct256', 'percent_encode compared for all 256 byte values x 5 encode sets')
+
+
+def replay_history(wu, case):
+    n = int((case.get('history') or {}).get('urls_parsed_before', 0))
+    for k in range(n):
+        try:
+            wu.URLInfo.parse(warm_url(5 * 10 ** 6 + k))
+        except Exception:
+            pass
 
 
 def load_corpus(ctx, pid):
